@@ -54,8 +54,25 @@ def run_history(ops, icap, bcap, max_rows):
 ALPHABET = [('save', 1, (10,)), ('save', 1, (20, 21)), ('save', 2, (30,)), ('get', 1), ('get', 2), ('export',)]
 
 
+# longer directed histories (beyond the exhaustive depth): several exports of one loader, re-saves between exports, several bundles of one export
+S1, S1b, S2, S3, G1, G2, G3, EX = (('save', 1, (10,)), ('save', 1, (20, 21)), ('save', 2, (30,)), ('save', 3, (40, 41, 42)), ('get', 1), ('get', 2), ('get', 3), ('export',))
+DIRECTED = [
+    (S1, EX, S1b, EX, G1), (S1, EX, S2, EX, G2, G1), (S1, EX, S2, EX, G1, G2), (S1, S2, EX, S1b, EX, G2, G1), (S1, EX, S1b, EX, S2, EX, G1, G2),
+    (S1, S2, S3, EX, G3, G1, G2), (S1, S2, S3, EX, G1, G2, G3), (S3, EX, S1, S2, EX, G3, G2, G1), (S1, EX, G1, S1b, EX, G1), (S1, S2, EX, G1, S3, EX, G3, G1, G2),
+]
+
+
 def search_loader(depth):
     wit, cases = [], 0
+    for ops in DIRECTED:
+        for icap, bcap, mr in ((1, 1, 1), (1, 2, 10 ** 6), (1, 2, 3), (1, 3, 2), (2, 2, 10 ** 6), (3, 3, 3)):
+            cases += 1
+            r = run_history(ops, icap, bcap, mr)
+            if r:
+                wit.append(dict(function='GeneralLoader.export', input=dict(ops=[list(o) for o in ops], item_cache=icap, bundle_cache=bcap, max_rows=mr),
+                                observed=r[1], clauses=[r[0], 'loader-invariant']))
+                if len(wit) >= 2:
+                    return wit, cases
     for n in range(1, depth + 1):
         for ops in itertools.product(ALPHABET, repeat=n):
             if n >= 4 and not any(o[0] == 'get' for o in ops[1:-1] + (ops[-1],)):
@@ -166,7 +183,7 @@ def search(target, models):
     t = target.split('.')[-1]
     cls = target.split('.')[0]
     mine = [w for w in wit if w['function'].startswith(cls)]
-    return dict(witnesses=(mine or wit)[:4], searched=f'{cases} histories: save/get/export over 2 ids (cache capacities 1-2, row limit 1 / unlimited), LRU op sequences, one-to-many saves',
+    return dict(witnesses=(mine or wit)[:4], searched=f'{cases} histories: directed multi-export histories, save/get/export over 2 ids (cache capacities 1-3, row limits 1-3 / unlimited), LRU op sequences, one-to-many saves',
                 how='real GeneralLoader subclass writing real bundle files; real LRUCache; real OneToManyMapLoader; compared with the last-saved model')
 
 
@@ -190,7 +207,7 @@ if __name__ == '__main__':
         depth = int(sys.argv[sys.argv.index('--bounded') + 1])
         w1, c1 = search_loader(depth)
         w2, c2 = search_lru()
-        common.emit(dict(witnesses=w1 + w2, cases=c1 + c2, bound=f'save/get/export histories of length <= {depth} over 2 ids x 2 cache/row-limit settings '
+        common.emit(dict(witnesses=w1 + w2, cases=c1 + c2, bound=f'{len(DIRECTED)} directed multi-export histories x 6 cache/row-limit settings; all save/get/export histories of length <= {depth} over 2 ids x 2 cache/row-limit settings '
                                                                   f'through real bundle files; all LRU op sequences of length 4 over 3 keys, capacities 0-2'))
         sys.exit(1 if (w1 or w2) else 0)
     common.main(search, replay)
